@@ -122,24 +122,32 @@ package gabi
 //@   assert at common.HashCommit middle: forall j in 0..len(contributions) :: $0[j + 1] == contributions[j]
 //@   assert at common.HashCommit flag: $1 == issig
 
+//@ # representation invariant of the memoised range-proof structures: absent, or one structure for every carried range proof
+//@ pred rangecache(p, pk) := p.cachedRangeStructures != nil ==> (forall idx in dom(p.RangeProofs) :: in(p.cachedRangeStructures, idx)) && (forall idx in dom(p.cachedRangeStructures) :: in(p.RangeProofs, idx) && len(p.cachedRangeStructures[idx]) == len(p.RangeProofs[idx]) && forall i in 0..len(p.cachedRangeStructures[idx]) :: p.cachedRangeStructures[idx][i] != nil && p.cachedRangeStructures[idx][i].index == idx && p.cachedRangeStructures[idx][i].ld <= pk.Params.Lm)
+
 //@ func (*ProofD).reconstructRangeProofStructures
 //@   property C12 C08
 //@   requires p != nil && wfpk(pk) && rangepresent(p)
 //@   ensures ok: err == nil ==> p.cachedRangeStructures != nil && forall idx in dom(p.cachedRangeStructures) :: in(p.RangeProofs, idx) && len(p.cachedRangeStructures[idx]) == len(p.RangeProofs[idx]) && forall i in 0..len(p.cachedRangeStructures[idx]) :: p.cachedRangeStructures[idx][i] != nil && p.cachedRangeStructures[idx][i].index == idx && p.cachedRangeStructures[idx][i].ld <= pk.Params.Lm
+//@   ensures complete: err == nil ==> forall idx in dom(p.RangeProofs) :: in(p.cachedRangeStructures, idx)
+//@   ensures fail: err != nil ==> p.cachedRangeStructures == old(p.cachedRangeStructures)
 //@   modifies p.cachedRangeStructures
 //@   assert at ExtractStructure index: $1 == index
-//@   loop 0 invariant p.cachedRangeStructures != nil && fresh(p.cachedRangeStructures)
-//@   loop 0 invariant forall idx in dom(p.cachedRangeStructures) :: in(p.RangeProofs, idx) && len(p.cachedRangeStructures[idx]) == len(p.RangeProofs[idx]) && forall i in 0..len(p.cachedRangeStructures[idx]) :: p.cachedRangeStructures[idx][i] != nil && p.cachedRangeStructures[idx][i].index == idx && p.cachedRangeStructures[idx][i].ld <= pk.Params.Lm
-//@   loop 0 modifies mapof(p.cachedRangeStructures), onlyfresh("rangeproof.ProofStructure")
-//@   loop 1 invariant p.cachedRangeStructures != nil && fresh(p.cachedRangeStructures) && in(p.cachedRangeStructures, index) && in(p.RangeProofs, index) && 0 <= $i && $i <= len(proofs) && len(p.cachedRangeStructures[index]) == $i
-//@   loop 1 invariant forall j in 0..$i :: p.cachedRangeStructures[index][j] != nil && p.cachedRangeStructures[index][j].index == index && p.cachedRangeStructures[index][j].ld <= pk.Params.Lm
-//@   loop 1 invariant forall idx in dom(p.cachedRangeStructures) :: idx != index ==> in(p.RangeProofs, idx) && len(p.cachedRangeStructures[idx]) == len(p.RangeProofs[idx])
-//@   loop 1 modifies elems(p.cachedRangeStructures[index])
+//@   loop 0 invariant structures != nil && fresh(structures)
+//@   loop 0 invariant forall idx in dom(p.RangeProofs) :: seen(idx) ==> in(structures, idx)
+//@   loop 0 invariant forall idx in dom(structures) :: in(p.RangeProofs, idx) && len(structures[idx]) == len(p.RangeProofs[idx]) && forall i in 0..len(structures[idx]) :: structures[idx][i] != nil && structures[idx][i].index == idx && structures[idx][i].ld <= pk.Params.Lm
+//@   loop 0 modifies mapof(structures), onlyfresh("rangeproof.ProofStructure")
+//@   loop 1 invariant structures != nil && fresh(structures) && in(structures, index) && in(p.RangeProofs, index) && 0 <= $i && $i <= len(proofs) && len(structures[index]) == $i
+//@   loop 1 invariant forall j in 0..$i :: structures[index][j] != nil && structures[index][j].index == index && structures[index][j].ld <= pk.Params.Lm
+//@   loop 1 invariant forall idx in dom(structures) :: idx != index ==> in(p.RangeProofs, idx) && len(structures[idx]) == len(p.RangeProofs[idx])
+//@   loop 1 invariant forall idx in dom(p.RangeProofs) :: seen(idx) ==> in(structures, idx)
+//@   loop 1 modifies elems(structures[index])
 //@   mustfail canary: err != nil
 
 //@ func (*ProofD).ChallengeContribution
 //@   property C01 C02 C11 C12 C08
-//@   requires p != nil && wfpk(pk) && nonnegD(p) && p.cachedRangeStructures == nil
+//@   requires p != nil && wfpk(pk) && nonnegD(p) && rangecache(p, pk)
+//@   ensures cacheinv: rangecache(p, pk)
 //@   ensures struct: err == nil ==> structD(p, pk) && len(result0) >= 2 && result0[0] == p.A && forall i in 0..len(result0) :: result0[i] != nil
 //@   ensures hidden: err == nil ==> forall idx in dom(p.RangeProofs) :: in(p.AResponses, idx)
 //@   ensures nonrev: err == nil && p.NonRevocationProof != nil ==> nrstruct(p.NonRevocationProof) && p.NonRevocationProof.Challenge == p.C && p.NonRevocationProof.SignedAccumulator != nil && p.NonRevocationProof.SignedAccumulator.Accumulator != nil && p.NonRevocationProof.Nu == p.NonRevocationProof.SignedAccumulator.Accumulator.Nu
@@ -166,6 +174,7 @@ package gabi
 //@   assume revocation.Parameters.AttributeSize == 195 && revocation.Parameters.ChallengeLength == 256 && revocation.Parameters.ZkStat == 128
 //@   ensures accept: result ==> structD(p, pk) && sizesD(p, pk) && val(p.C) == val(reconstructedChallenge)
 //@   ensures nonrev: result && p.NonRevocationProof != nil ==> nrstruct(p.NonRevocationProof) && val(p.NonRevocationProof.Challenge) == val(reconstructedChallenge) && p.NonRevocationProof.acc != nil && p.NonRevocationProof.acc.Nu != nil && val(p.NonRevocationProof.Nu) == val(p.NonRevocationProof.acc.Nu) && val(p.NonRevocationProof.Responses["alpha"]) <= val(revocation.Parameters.bTwoZk)
+//@   ensures nonrevunits: result && p.NonRevocationProof != nil ==> 0 < val(p.NonRevocationProof.Cr) && val(p.NonRevocationProof.Cr) < val(pk.N) && 0 < val(p.NonRevocationProof.Cu) && val(p.NonRevocationProof.Cu) < val(pk.N)
 //@   ensures alpha: result && p.NonRevocationProof != nil ==> exists k in dom(p.AResponses) :: val(p.NonRevocationProof.Responses["alpha"]) == val(p.AResponses[k]) && val(p.AResponses[k]) < pow2(revocation.Parameters.AttributeSize + revocation.Parameters.ChallengeLength + revocation.Parameters.ZkStat + 1)
 //@   modifies p.NonRevocationProof.acc, p.NonRevocationProof.SignedAccumulator.Accumulator
 //@   mustfail canary: !result
